@@ -8,6 +8,7 @@ import glob
 import json
 import os
 import subprocess
+os.environ["VERIF_EVIDENCE_DIR"] = "/verif/.work/evidence"   # never the committed evidence
 import sys
 import time
 
